@@ -432,7 +432,7 @@ def run(ctx: Ctx, rep: Report, tier: str) -> None:
     # R02.4 writer keywords belong to the target platform's reader; R02.6 re-typing tests
     from .c01 import classification_guards
     from .c06 import r06_1
-    from .c16 import r16_1, r16_2, settings_propagation
+    from .c16 import dicts_rebuilt_whole, objects_adopted_once, r16_1, r16_2, settings_propagation
 
     sub = Report("C02")
     r06_1(ctx, sub)
@@ -443,4 +443,7 @@ def run(ctx: Ctx, rep: Report, tier: str) -> None:
     r16_1(ctx, sub)
     r16_2(ctx, sub)
     settings_propagation(ctx, sub)
+    # ... and the members of referenced address groups: a conversion rebuilds every member from its exported data
+    dicts_rebuilt_whole(ctx, sub)
+    objects_adopted_once(ctx, sub)
     rep.absorb(sub, "R02.5")
